@@ -4,6 +4,7 @@ import Proofs.Machine.BodyPlain
 import Proofs.Machine.BodyCombinedText
 import Proofs.Machine.BodyConflict
 import Proofs.Machine.BodyConflictAll
+import Proofs.Machine.IngestRun
 /-!
 C01 — every hunk line is shown exactly once, in order, with its text intact (unified view).
 
@@ -455,5 +456,200 @@ theorem stale_conflict_lines_shown_in_next_region :
         ["diff --cc y", "index 1,2..3", "--- a/y", "+++ b/y", "@@@ -1,2 -1,2 +1,2 @@@"].map mkL ++ region2.lines) with
      | .ok m => (m.out.filter (fun r => isBody r.kind)).map (·.src)
      | .error _ => []) = [5, 7, 14, 16] := by decide
+
+-- ingest_line + the state machine (session 4, T4) ------------------------------------------------
+
+namespace Ingested
+open IngestMachine Line
+
+/-- **`sources_as_modelled`**. What ties the composition `IngestMachine.runRaw` to `/repo/src`, regenerated on
+every run (`Generated.IngestMachine`): in the input loop of `consume` the call of `ingest_line` comes first and
+only the source detection stands between it and the handler chain; outside `ingest_line_utf8` nothing assigns to
+`self.line` / `self.raw_line` (but the grep handler, for its own lines); `handle_hunk_line` classifies `self.line`
+and makes the row of a removed / added / unchanged line by `prepare(&self.line, …)`, the row of any other line by
+`tabs::expand(&self.raw_line, …)`; `store_line` (conflict regions) uses `prepare(&self.line, …)`; and in the unified
+view `Config::max_line_length` is the option `--max-line-length`. -/
+theorem sources_as_modelled : sourcesAsModelled = true := by decide +kernel
+
+/-- **`truncation_mark_visible`**. `Config::truncation_symbol` (regenerated from `src/config.rs` / `src/ansi/mod.rs`)
+is reverse video, `→`, reset: whatever the width `w` of the arrow, its visible text is `→` and it takes `w` columns. -/
+theorem truncation_mark_visible (w : Nat) :
+    textOf (symItems w) = ['→'] ∧ width (symItems w) = w ∧
+    flatten (symItems w) = "\x1b[7m→\x1b[0m".toList := by
+  refine ⟨by rfl, ?_, by rfl⟩
+  simp [symItems, Generated.IngestMachine.truncationSymbol, width, Item.width]
+
+/-- **`ingested_line_cut_only_when_too_long`** (one line, every limit, every truncation symbol, every partition of the
+line into clusters of any widths and escape sequences). `ingest_line_utf8` leaves the line as it is (`o = r.items`:
+`raw_line` is the CR-processed input line, `line` its text) — or, and only when the limit is positive and smaller than
+both the line's length in bytes and its width in columns, the result is `kept ++ rt` where `rt` is the truncation
+symbol (cut to the limit itself if it does not fit) and the text of `kept` is the longest prefix of the line's
+clusters that fits in `limit − width rt` columns (`fitCount`; `fitCount_fits`, `fitCount_maximal`), followed by one
+blank if a two-column cluster had to be split; something is cut off (`fitCount … < length`). -/
+theorem ingested_line_cut_only_when_too_long {ic : ICfg} {r : RawLine} {o : List Item} (h : ingestItems ic r = some o) :
+    o = r.items ∨
+    (0 < ic.maxLen ∧ ic.maxLen < utf8Len r.r1 ∧ ic.maxLen < gWidth (gsOf r.items) ∧
+      ∃ rt kept f, truncNoTail ic.maxLen (some ' ') ic.sym = some rt ∧ o = kept ++ rt ∧ Filler (some ' ') f ∧
+        fitCount ic.maxLen (width rt) (gsOf r.items) < (gsOf r.items).length ∧
+        gsOf kept = (gsOf r.items).take (fitCount ic.maxLen (width rt) (gsOf r.items)) ++ f) :=
+  ingestItems_spec (by decide) h
+
+/-- `fitCount` is what it is called: the counted clusters fit, one more does not. -/
+theorem kept_prefix_is_longest_that_fits (dw used : Nat) (gs : List G) :
+    (0 < fitCount dw used gs → used + gWidth (gs.take (fitCount dw used gs)) ≤ dw) ∧
+    (fitCount dw used gs < gs.length → dw < used + gWidth (gs.take (fitCount dw used gs + 1))) :=
+  ⟨fitCount_fits dw gs used, fitCount_maximal dw gs used⟩
+
+/-- **`ingested_line_whole_within_limit`**: no limit (`--max-line-length 0`), or a line not longer than the limit in
+bytes, or one that fits in the limit's columns: nothing is cut. -/
+theorem ingested_line_whole_within_limit {ic : ICfg} {r : RawLine}
+    (h : ic.maxLen = 0 ∨ utf8Len r.r1 ≤ ic.maxLen ∨ width r.items ≤ ic.maxLen) : ingestItems ic r = some r.items :=
+  ingestItems_whole h
+
+/-- **`raw_run_never_panics`**: delta on raw lines ends normally unless the `debug_assert!` of `truncate_str_impl`
+(a cluster wider than two columns at the cut; dev profile only) fires in the ingest step. -/
+theorem raw_run_never_panics {ic : ICfg} {cfg : Cfg} {rs : List RawLine} {ls : List L} (h : ingestAll ic rs = some ls) :
+    ∃ m, runRaw ic cfg rs = .ok m := runRaw_total h
+
+/-- **`hunk_line_row_of_ingested_line`** (whole runs on RAW input lines, git diff, unified hunk; every configuration,
+every limit). The input lines are `pre ++ r :: post`; every line is ingested (`IngestMachine.toL`: CR step, truncation
+under the regenerated guard, stripping) and the state machine runs on the results. If the ingested form `l` of `r` is
+met in a unified hunk state and starts with a marker column, the output has exactly one hunk-line row for `r`, and it
+is `expectedRow cfg l`: kind by the marker, text = `l.text` without the marker column, tabs expanded. What `l.text` is
+in terms of the input line: `ingested_line_cut_only_when_too_long`. -/
+theorem hunk_line_row_of_ingested_line {ic : ICfg} {cfg : Cfg} {pre post : List RawLine} {r : RawLine} {lsPre : List L}
+    {l : L} {mi m : M} (hpre : ingestAll ic pre = some lsPre) (hl : toL ic r = some l)
+    (hmc : ∀ ls, ingestAll ic (pre ++ r :: post) = some ls → ∀ x ∈ ls, startsWith x.text Generated.Markers.mcBegin = false)
+    (ei : runFrom cfg {} lsPre = .ok mi) (hsrc : mi.source = .gitDiff) (hst : isHunkState mi.st = true)
+    (hdt : hunkDiffType mi.st = some .unified) (hb : firstIs l isMarker) (hc : l.commitRe = false)
+    (hsub : l.submodule = none) (e : runRaw ic cfg (pre ++ r :: post) = .ok m) :
+    (m.out.filter (fun x => isBody x.kind)).filter (fun x => x.src = pre.length) = [expectedRow cfg l pre.length] :=
+  raw_run_hunk_line_row hpre hl hmc ei hsrc hst hdt hb hc hsub e
+
+/-- … the same in a hunk of a combined diff with `n` parents (row: `expectedRowCombined`) … -/
+theorem hunk_line_row_of_ingested_line_combined {ic : ICfg} {cfg : Cfg} {pre post : List RawLine} {r : RawLine}
+    {lsPre : List L} {l : L} {mi m : M} {n : Nat} (hpre : ingestAll ic pre = some lsPre) (hl : toL ic r = some l)
+    (hmc : ∀ ls, ingestAll ic (pre ++ r :: post) = some ls → ∀ x ∈ ls, startsWith x.text Generated.Markers.mcBegin = false)
+    (ei : runFrom cfg {} lsPre = .ok mi) (hsrc : mi.source = .gitDiff)
+    (hdt : hunkDiffType mi.st = some (.combined (.number n) false)) (hb : HunkBody l)
+    (hsub : l.submodule = none) (e : runRaw ic cfg (pre ++ r :: post) = .ok m) :
+    (m.out.filter (fun x => isBody x.kind)).filter (fun x => x.src = pre.length) =
+      [expectedRowCombined cfg n l pre.length] :=
+  raw_run_combined_line_row hpre hl hmc ei hsrc hdt hb hsub e
+
+open Machine.Plain in
+/-- … and in plain `diff -u` input (the reference reading `plainNext` reads the ingested lines; row: `plainRow`). -/
+theorem hunk_line_row_of_ingested_line_plain {ic : ICfg} {cfg : Cfg} {pre post : List RawLine} {r : RawLine}
+    {lsPre : List L} {l : L} {s s' : PS} {b : Bool} {m : M} (hpre : ingestAll ic pre = some lsPre)
+    (hl : toL ic r = some l) (hin : ∀ ls, ingestAll ic (pre ++ r :: post) = some ls → PlainInput ls)
+    (hs : plainAfter .top lsPre = some s) (hn : plainNext s l = some (s', b))
+    (e : runRaw ic cfg (pre ++ r :: post) = .ok m) :
+    (m.out.filter (fun x => isBody x.kind)).filter (fun x => x.src = pre.length) =
+      if b then [plainRow cfg l pre.length] else [] :=
+  raw_run_plain_line hpre hl hin hs hn e
+
+/-- **`hunk_line_shown_whole_within_limit`** (whole runs, stated over the characters of the input line). A line
+`c :: rest` of the raw input without `\r` and without escape sequences, `c` one of `+`, `-`, blank, met in a unified
+hunk of a git diff: if there is no limit (`--max-line-length 0`), or the line is not longer than the limit (bytes),
+or it fits in the limit's columns, its one row is: kind by `c`, text = `rest` with tabs expanded (`c` in front when
+markers are kept) — nothing else is removed or added. -/
+theorem hunk_line_shown_whole_within_limit {ic : ICfg} {cfg : Cfg} {pre post : List RawLine} {r : RawLine}
+    {lsPre : List L} {mi m : M} {c : Char} {rest : Str} (hpre : ingestAll ic pre = some lsPre)
+    (hwf : r.wf = true) (hcr : '\r' ∉ r.chars) (hesc : noEsc r.items = true) (hch : r.chars = c :: rest)
+    (hm : isMarker c = true)
+    (hlim : ic.maxLen = 0 ∨ utf8Len r.chars ≤ ic.maxLen ∨ width r.items ≤ ic.maxLen)
+    (hmc : ∀ ls, ingestAll ic (pre ++ r :: post) = some ls → ∀ x ∈ ls, startsWith x.text Generated.Markers.mcBegin = false)
+    (ei : runFrom cfg {} lsPre = .ok mi) (hsrc : mi.source = .gitDiff) (hst : isHunkState mi.st = true)
+    (hdt : hunkDiffType mi.st = some .unified) (hc : r.facts.commitRe = false) (hsub : r.facts.submodule = none)
+    (e : runRaw ic cfg (pre ++ r :: post) = .ok m) :
+    ∃ row, (m.out.filter (fun x => isBody x.kind)).filter (fun x => x.src = pre.length) = [row] ∧
+      row.text = keptMarker cfg c ++ Text.expand cfg.tab rest ∧
+      row.kind = (if c = '-' then .minus else if c = '+' then .plus else .zero) := by
+  have hl := toL_plain_whole (ic := ic) hwf hcr hesc hlim
+  have hb : firstIs ({ r.facts with raw := r.chars, text := r.chars } : L) isMarker := ⟨c, rest, hch, hm⟩
+  refine ⟨_, raw_run_hunk_line_row hpre hl hmc ei hsrc hst hdt hb hc hsub e, ?_⟩
+  exact expectedRow_text (l := { r.facts with raw := r.chars, text := r.chars }) hch hm
+
+/-- **`hunk_line_cut_is_marked`** (whole runs). A line of a unified hunk of a git diff that IS cut (`o ≠ r.items`; by
+`ingested_line_cut_only_when_too_long` the limit is positive and the line exceeds it in bytes and columns), whose
+first cluster `g` starts with the marker `c` and fits next to the truncation symbol (`width sym + g.w ≤ limit`; for
+the one-column `→` and a one-column marker: limit ≥ 2): its one row has kind by `c` and shows, after the marker column,
+the longest prefix of the line's clusters that fits in `limit − width sym` columns (one blank for a split wide
+cluster), then the visible text of the truncation symbol — all with tabs expanded. -/
+theorem hunk_line_cut_is_marked {ic : ICfg} {cfg : Cfg} {pre post : List RawLine} {r : RawLine} {lsPre : List L}
+    {o : List Item} {mi m : M} {g : G} {gs : List G} {c : Char} {cs : Str} (hpre : ingestAll ic pre = some lsPre)
+    (ho : ingestItems ic r = some o) (hcut : o ≠ r.items) (hgs : gsOf r.items = g :: gs) (hg : g.s = c :: cs)
+    (hm : isMarker c = true) (hfit : width ic.sym + g.w ≤ ic.maxLen)
+    (hmc : ∀ ls, ingestAll ic (pre ++ r :: post) = some ls → ∀ x ∈ ls, startsWith x.text Generated.Markers.mcBegin = false)
+    (ei : runFrom cfg {} lsPre = .ok mi) (hsrc : mi.source = .gitDiff) (hst : isHunkState mi.st = true)
+    (hdt : hunkDiffType mi.st = some .unified) (hc : r.facts.commitRe = false) (hsub : r.facts.submodule = none)
+    (e : runRaw ic cfg (pre ++ r :: post) = .ok m) :
+    ∃ row f, (m.out.filter (fun x => isBody x.kind)).filter (fun x => x.src = pre.length) = [row] ∧
+      Filler (some ' ') f ∧ fitCount ic.maxLen (width ic.sym) (gsOf r.items) < (gsOf r.items).length ∧
+      row.text = keptMarker cfg c ++ Text.expand cfg.tab
+        ((gChars ((gsOf r.items).take (fitCount ic.maxLen (width ic.sym) (gsOf r.items)) ++ f) ++ textOf ic.sym).drop 1) ∧
+      row.kind = (if c = '-' then .minus else if c = '+' then .plus else .zero) := by
+  rcases ingestItems_spec (by decide) ho with h | ⟨_, _, _, rt, kept, f, hrt, rfl, hf, hlt, hk⟩
+  · exact absurd h hcut
+  · rw [truncNoTail_fits _ _ _ (by omega)] at hrt
+    cases hrt
+    have htext : textOf (kept ++ ic.sym) =
+        gChars ((gsOf r.items).take (fitCount ic.maxLen (width ic.sym) (gsOf r.items)) ++ f) ++ textOf ic.sym := by
+      rw [textOf_append]; simp [textOf, hk]
+    obtain ⟨tl', htl⟩ := kept_head (dw := ic.maxLen) (used := width ic.sym) (f := f) (tl := textOf ic.sym) hgs hg (by omega)
+    have hl : toL ic r = some { r.facts with raw := flatten (kept ++ ic.sym), text := textOf (kept ++ ic.sym) } := by
+      simp [toL, ho]
+    have ht : ({ r.facts with raw := flatten (kept ++ ic.sym), text := textOf (kept ++ ic.sym) } : L).text = c :: tl' := by
+      simp only; rw [htext, htl]
+    have hb : firstIs ({ r.facts with raw := flatten (kept ++ ic.sym), text := textOf (kept ++ ic.sym) } : L) isMarker :=
+      ⟨c, tl', ht, hm⟩
+    refine ⟨_, f, raw_run_hunk_line_row hpre hl hmc ei hsrc hst hdt hb hc hsub e, hf, hlt, ?_⟩
+    have hd : (gChars ((gsOf r.items).take (fitCount ic.maxLen (width ic.sym) (gsOf r.items)) ++ f) ++ textOf ic.sym).drop 1 = tl' := by
+      rw [htl]; rfl
+    rw [hd]
+    exact expectedRow_text (cfg := cfg) (idx := pre.length) ht hm
+
+/-- a raw line of one-column characters (TAB: no column of its own), no `\r`, no escape sequences -/
+def mkRaw (s : String) : RawLine :=
+  { chars := s.toList, tailZeroWidth := true,
+    items := if s.toList = [] then [] else [.text (s.toList.map fun c => ⟨[c], if c = '\t' then 0 else 1⟩)],
+    facts := mkL s }
+
+def ic20 : ICfg := { maxLen := 20, sym := symItems 1 }
+def rawPre : List RawLine :=
+  ["diff --git a/x b/x", "--- a/x", "+++ b/x", "@@ -1,2 +1,2 @@ fn f()", " ctx"].map mkRaw
+def longLine : RawLine := mkRaw "-0123456789\tabcdefghijklmnop"
+
+example : longLine.wf = true ∧ noEsc longLine.items = true ∧ '\r' ∉ longLine.chars := by decide
+/-- 28 bytes and 27 columns against a limit of 20: cut; 19 columns are kept next to the one-column mark -/
+example : utf8Len longLine.r1 = 28 ∧ width longLine.items = 27 ∧ ingestItems ic20 longLine ≠ some longLine.items := by
+  decide
+example : fitCount 20 1 (gsOf longLine.items) = 20 ∧ gWidth ((gsOf longLine.items).take 20) = 19 := by decide
+example : (match ingestAll ic20 rawPre with
+    | some lsPre => (match runFrom {} {} lsPre with
+      | .ok mi => mi.source == .gitDiff && isHunkState mi.st && hunkDiffType mi.st == some .unified
+      | .error _ => false)
+    | none => false) = true := by decide
+/-- what the theorems say for this input: line 5 is cut after `abcdefgh` and marked, lines 4 and 6 are whole; the
+hunk header (22 bytes, exempt from the limit by the regenerated guard) still opens the hunk -/
+example : (match runRaw ic20 {} (rawPre ++ longLine :: [mkRaw "+new"]) with
+    | .ok m => (m.out.filter (fun r => isBody r.kind)).map (fun r => (r.src, r.kind, String.ofList r.text)) ==
+        [(4, .zero, "ctx"), (5, .minus, "0123456789        abcdefgh→"), (6, .plus, "new")]
+    | .error _ => false) = true := by decide
+/-- the same input without a limit -/
+example : (match runRaw { ic20 with maxLen := 0 } {} (rawPre ++ longLine :: [mkRaw "+new"]) with
+    | .ok m => (m.out.filter (fun r => isBody r.kind)).map (fun r => (r.src, String.ofList r.text)) ==
+        [(4, "ctx"), (5, "0123456789        abcdefghijklmnop"), (6, "new")]
+    | .error _ => false) = true := by decide
+
+/-- `hfit` of `hunk_line_cut_is_marked` is needed: with `--max-line-length 1` nothing fits next to the mark, the
+line is the mark alone, has no marker column any more and is shown by the `_` arm of `handle_hunk_line` as it is
+(kind `other`, the raw line). Confirmed on the binary (notes/S4-C01-T4.md). -/
+theorem tiny_limit_loses_marker_column :
+    (match runRaw { maxLen := 1, sym := symItems 1 } {} [mkRaw "@@ -1 +1 @@", mkRaw "+abc"] with
+     | .ok m => (m.out.filter (fun r => isBody r.kind)).map (fun r => (r.src, r.kind, String.ofList r.text))
+     | .error _ => []) = [(1, .other, "\x1b[7m→\x1b[0m")] := by decide
+
+end Ingested
 
 end C01
